@@ -10,6 +10,8 @@ pub struct Scope {
     /// strong slots per node (1..=2)
     pub k: u8,
     pub weak: bool,
+    /// the weak slot sits behind a `dyn` trait object (object-safe tracing path)
+    pub dynweak: bool,
     pub copyroot: bool,
     /// NewChild / Link / Unlink enabled
     pub graph: bool,
@@ -62,6 +64,7 @@ pub const BASE: Scope = Scope {
     r: 2,
     k: 2,
     weak: true,
+    dynweak: false,
     copyroot: true,
     graph: true,
     maproot: false,
@@ -103,6 +106,7 @@ pub fn scope(name: &str) -> Option<Scope> {
         "S4c" => Scope { name: "S4c", n: 4, r: 1, k: 1, weak: false, upgrade_ops: false, ..BASE },
         "S3w" => Scope { name: "S3w", n: 3, r: 1, k: 1, ..BASE },
         "S3wl" => Scope { name: "S3wl", n: 3, r: 1, k: 1, copyroot: false, upgrade_ops: false, wrap: false, ..BASE },
+        "S2wd" => Scope { name: "S2wd", n: 2, r: 1, k: 1, dynweak: true, ..BASE },
         "S2w" => Scope { name: "S2w", n: 2, r: 1, k: 1, ..BASE },
         // barrier paths
         "S2b" => Scope { name: "S2b", n: 2, r: 1, k: 1, barrier: true, cells: false, ..BASE },
@@ -153,7 +157,8 @@ pub fn owners(oracle: &str) -> &'static [&'static str] {
         "once" => &["C04", "C11", "C20"],
         "alloc" => &["C04", "C11", "C20"],
         "api" => &["C01", "C02", "C03", "C04", "C05", "C06", "C07", "C08", "C10", "C11", "C14", "C20"],
-        "c02" => &["C02", "C11", "C14", "C20"],
+        // (C05: "a weak pointer never keeps its target's value alive" is decided by the same probe)
+        "c02" => &["C02", "C05", "C11", "C14", "C20"],
         "c03" => &["C03"],
         "c04" => &["C04", "C11", "C14", "C20"],
         "c05" => &["C05", "C11", "C20"],
